@@ -188,16 +188,6 @@ class P:
         elif self.eat("?:"):
             cap = False
         elif self.peek() == "?":
-            # (?i) directive directly at the start of a group is handled by seq(); anything else: unknown
-            if self.s.startswith("?i)", self.i) or self.s.startswith("?-i)", self.i):
-                self.i -= 1
-                # the group is a plain capturing group whose first item is a directive
-                self.i += 1
-                idx = self.newcap(None)
-                node, _ = self.alt(ci)
-                if not self.eat(")"):
-                    self.err("unclosed group")
-                return ("group", idx, None, node)
             self.err("group of unknown kind")
         idx = self.newcap(name) if cap else None
         node, _ = self.alt(ci)          # flags set inside are dropped at the closing parenthesis
